@@ -503,6 +503,30 @@ impl OutputLog {
         )))
     }
 
+    /// Verification hook: the records of ONE stream file as the parser of `create_index` sees them right now:
+    /// (job task id, instance, channel, size, data completely in the file). `None` if the header is not readable yet.
+    #[allow(clippy::type_complexity)]
+    pub fn verif_scan_file(path: &Path) -> anyhow::Result<Option<Vec<(u32, u32, u32, u64, bool)>>> {
+        let len = std::fs::metadata(path)?.len();
+        let mut file = BufReader::new(File::open(path)?);
+        if OutputLog::check_header(&mut file).is_err() {
+            return Ok(None);
+        }
+        let mut out = Vec::new();
+        while let Some(h) = Self::read_chunk(&mut file)? {
+            let pos = file.stream_position()?;
+            out.push((
+                h.task.job_task_id().as_num(),
+                h.instance.as_num(),
+                h.channel,
+                h.size,
+                pos + h.size <= len,
+            ));
+            file.seek_relative(h.size as i64)?;
+        }
+        Ok(Some(out))
+    }
+
     pub fn verif_tasks(&self) -> Vec<(u32, u32)> {
         self.index
             .iter()
